@@ -415,7 +415,11 @@ where
 
     #[inline]
     fn argument(self) -> Self::RealField {
-        Self::zero()
+        if self >= Self::zero() {
+            Self::zero()
+        } else {
+            Self::pi()
+        }
     }
 
     #[inline]
